@@ -1,6 +1,7 @@
 import OsuProofs.SourceTerms
 import OsuProofs.Newton
 import OsuProofs.FixedPoint
+import OsuProofs.FixedPoint2
 import OsuProofs.CharnockMono
 /-
 C10 — roughness lengths satisfy their defining implicit equations.
@@ -29,6 +30,19 @@ theorem charnock_missing (kappa elev charnock g visc nu : ℝ) (U : List (Option
   refine List.Forall₂.imp ?_ (List.forall₂_map_left_iff.1 (fixedPoint_missing _ _ _))
   intro u z h hu
   exact h (by simp [hu])
+
+/-- every Charnock roughness that is returned (not missing) met the code's stopping rule against
+the previous iterate `c`: `|z − c| < atol` and `|z − c| / max(|c|, atol) < rtol` with
+`atol = 1e-10`, `rtol = 1e-4` — whichever way the loop ended (all converged, or iterations
+exhausted and the non-converged elements masked) -/
+theorem charnock_met_rule (kappa elev charnock g visc nu : ℝ) (U : List (Option ℝ)) :
+    ∀ z ∈ charnockFromU10 kappa elev charnock g visc nu U, MetRule charnockCfg z := by
+  simp only [charnockFromU10]
+  exact fixedPoint_metRule _ _ _
+
+/-- the vector fixed-point iteration in general: every returned value met the stopping rule -/
+theorem fixedPoint_met_rule {β : Type} (F : β → ℝ → ℝ) (cfg : FPConfig ℝ) (guess : List (β × Option ℝ)) :
+    ∀ r ∈ fixedPoint F cfg guess, MetRule cfg r := fixedPoint_metRule F cfg guess
 
 /-- a returned wave-dependent roughness is the exponential of the solver's root: a positive
 length; otherwise the result is missing -/
